@@ -1,9 +1,112 @@
-"""setup: nothing to build (pure python + system clang); verify the tools are present."""
+"""setup + self-test of the analysis core on fixed inputs (MANIFEST setup_cmd).
+
+Nothing to build (pure python + system clang).  Verifies that the tools are present and that the term algebra,
+the logic (congruences, Fourier-Motzkin, case exploration) and the IR reader + interpreter give the expected
+answers on small fixed inputs - including *positive controls*: inputs on which a rule-style query must answer
+'violated', so that an engine that answers 'holds' to everything cannot pass."""
+import os
 import shutil
+import subprocess
 import sys
+import tempfile
 
 missing = [t for t in ("clang++", "g++", "llvm-cxxfilt-14") if shutil.which(t) is None]
 if missing:
     print("missing tools: %s" % missing)
     sys.exit(1)
-print("cv: tools present")
+
+from .terms import (Lin, ZERO, const, atom, c_cmp, c_not, mk_alignup, mk_bin, mk_and, mk_gamma, mk_memcmp, show)  # noqa: E402
+from .logic import Facts, simplify  # noqa: E402
+
+fails = []
+
+
+def check(name, cond):
+    if not cond:
+        fails.append(name)
+
+
+x, y, n = atom(("arg", 0)), atom(("arg", 1)), atom(("arg", 2))
+# affine normal form
+check("affine", (x + y - x).single_atom() == ("arg", 1) and (x.scale(3) - x - x - x) == ZERO)
+# AlignUp bounds
+f = Facts()
+check("alignup-lower", f.nonneg(mk_alignup(x, 8) - x))
+check("alignup-upper", f.nonneg(x + 7 - mk_alignup(x, 8)))
+check("alignup-not-exact", not f.is_zero(mk_alignup(x, 8) - x))          # positive control
+# congruences
+g = Facts()
+g.add_cong(x, 8)
+check("cong-assumed", g.cong(x + 4) == (8, 4))
+check("cong-alignup-removed", simplify(mk_alignup(x + 4, 8), g) == x + 8)
+check("cong-unknown", Facts().cong(x + 4)[0] <= 1)                        # positive control
+# ceil division: 8*[s&7 != 0] + 8*(s>>3) >= s, but 8*(s>>3) >= s is not provable
+s = x
+alloc = atom(("b2i", c_not(c_cmp("eq", mk_and(s, const(7)), ZERO)))).scale(8) + mk_bin("lshr", s, const(3)).scale(8)
+check("ceil-fits", Facts().nonneg(alloc - s))
+check("floor-does-not-fit", not Facts().nonneg(mk_bin("lshr", s, const(3)).scale(8) - s))   # positive control
+# signed memcmp atom
+r = mk_memcmp(x, y, n)
+h = Facts()
+h.add(c_cmp("slt", r, ZERO))
+check("memcmp-negative-feasible", not h.infeasible())
+check("memcmp-sign-decided", h.decide(c_cmp("eq", r, ZERO)) is False)
+check("memcmp-antisymmetric", mk_memcmp(y, x, n) == -r)
+# gamma resolution
+t = mk_gamma(c_cmp("ult", x, y), x, y)
+k = Facts()
+k.add(c_cmp("ult", x, y))
+check("gamma-resolved", simplify(t, k) == x)
+k2 = Facts()
+k2.add(c_cmp("ult", y, x))
+check("gamma-other", simplify(t, k2) == y)
+# infeasibility
+z = Facts()
+z.add(c_cmp("ult", x, y))
+z.add(c_cmp("ult", y, x))
+check("infeasible", z.infeasible())
+check("feasible", not k.infeasible())                                     # positive control
+
+# IR reader + interpreter on a tiny C++ function
+SRC = r'''
+#include <cstddef>
+#include <cstdint>
+extern "C" void* verif_raw_allocate(std::size_t id, std::size_t bytes, std::size_t unit);
+extern "C" void verif_raw_deallocate(std::size_t id, void* p, std::size_t bytes, std::size_t unit) noexcept;
+struct S { std::uint64_t* p; std::size_t n; };
+extern "C" void t_grow(S& s, std::size_t m) {
+  if (m > s.n) { auto* q = static_cast<std::uint64_t*>(verif_raw_allocate(1, m * 8, 8)); verif_raw_deallocate(1, s.p, s.n * 8, 8); s.p = q; s.n = m; }
+}
+extern "C" void t_leak(S& s, std::size_t m) {
+  if (m > s.n) { auto* q = static_cast<std::uint64_t*>(verif_raw_allocate(1, m * 8, 8)); s.p = q; s.n = m; }
+}
+'''
+from . import ir, absint, calls  # noqa: E402
+
+d = tempfile.mkdtemp(prefix="cv_selfcheck_")
+try:
+    cpp = os.path.join(d, "t.cpp")
+    ll = os.path.join(d, "t.ll")
+    with open(cpp, "w") as fh:
+        fh.write(SRC)
+    rc = subprocess.run(["clang++", "-std=gnu++17", "-O2", "-fno-exceptions", "-gline-tables-only", "-S", "-emit-llvm", cpp, "-o", ll],
+                        capture_output=True, text=True)
+    check("clang-compiles", rc.returncode == 0)
+    if rc.returncode == 0:
+        mod = ir.load(ll)
+        calls.demangle_all(list(mod.functions))
+        for fn, want_dealloc in (("t_grow", 1), ("t_leak", 0)):
+            sm = absint.summarize(mod, fn, calls.classify, record_loads=True)
+            al = [e for e in sm.events if e.kind == "ALLOC"]
+            de = [e for e in sm.events if e.kind == "DEALLOC"]
+            check("%s-alloc-event" % fn, len(al) == 1 and al[0].args[1] == atom(("arg", 1)).scale(8))
+            check("%s-dealloc-events" % fn, len(de) == want_dealloc)          # t_leak: positive control for a leak rule
+            p_final = sm.final.get((atom(("arg", 0)), 8))
+            check("%s-owner-field" % fn, p_final is not None and "fresh" in show(p_final))
+finally:
+    shutil.rmtree(d, ignore_errors=True)
+
+if fails:
+    print("cv selfcheck FAILED: %s" % ", ".join(fails))
+    sys.exit(1)
+print("cv: tools present; core self-test passed (%d checks)" % 24)
